@@ -119,11 +119,21 @@ def generate(run_seed: int, tier: str) -> dict:
             if catcols and rng.random() < 0.35:
                 # one contrasts INSTANCE held by the caller and used for one or two factors
                 f["spec"] += " + " + " + ".join(f"C({c_}, contr_obj)" for c_ in rng.sample(catcols, min(len(catcols), rng.randint(1, 2))))
+            if rng.random() < 0.3:
+                # a caller-supplied callable whose result depends on how often it has been called within this build
+                numc = [c_ for c_ in u["cols"] if u["cols"][c_]["kind"] == "float"]
+                f["spec"] += " + " + " + ".join(f"tick({world.q(c_)})" for c_ in rng.sample(numc, min(len(numc), rng.randint(2, 3))))
+            if rng.random() < 0.12:
+                f["spec"] += " + ft.cubic_spline(x, df=4)"
             f["spec"] += rng.choice([" + lag(vec)", " + lag(vec, 2)", " + np.log(x)", " + np.sqrt(z):x" if "z" in u["cols"] else " + np.sqrt(x)", " + myfun(x)", " + {x * const}", " + myfun(x):const", " + bs(x, knots=knots, extrapolation='extend')",
                                      " + bs(x, knots=knots, degree=2, extrapolation='clip')"])
             f["uses_ctx"] = True
         frecipes.append(f)
 
+    if swarm.random() < 0.3:
+        names_ = [c_ for c_ in u["cols"] if c_.isidentifier() and u["cols"][c_]["kind"] in ("float", "int")]
+        if len(names_) >= 2:
+            frecipes.append({"spec": {"__set__": names_[: rng.randint(2, min(5, len(names_)))]}, "form": "simple", "atoms": []})
     ops: list[dict] = []
     sym: dict[str, dict] = {}  # symbolic pool: id -> {"kind": ..}
     counters = {"F": 0, "S": 0, "M": 0, "X": 0}
@@ -331,6 +341,13 @@ def make_context(shared: dict, fault: Optional[dict]) -> dict:
 
     ctx["flaky"] = flaky
     ctx["__flaky_count__"] = count
+    ticks = [0]
+
+    def tick(x):
+        ticks[0] += 1
+        return x + 0.001 * ticks[0]
+
+    ctx["tick"] = tick
     return ctx
 
 
@@ -342,7 +359,7 @@ def client_fn_call(spec: Any, data: Any, opts: dict, ctx: dict, drop: Any) -> An
     myfun = ctx["myfun"]  # noqa: F841
     flaky = ctx["flaky"]  # noqa: F841
     usr_center, usr_sq, usr_offset, knots, vec, ft = ctx["usr_center"], ctx["usr_sq"], ctx["usr_offset"], ctx["knots"], ctx["vec"], ctx["ft"]  # noqa: F841
-    contr_obj = ctx["contr_obj"]  # noqa: F841
+    contr_obj, tick = ctx["contr_obj"], ctx["tick"]  # noqa: F841
     if "center" in ctx:
         center = ctx["center"]  # noqa: F841
     if "scale" in ctx:
